@@ -279,6 +279,9 @@ def check_offsets(case, R):
         exact = False
         R.counters["types_with_nested_delimited"] += 1
     fields = t.fields
+    if len(fields) >= 2 and len(fields) <= 4:
+        with engine.deadline(60):
+            traversal_histories(desc, R, one)
     for base in BASES:
         with engine.deadline(30):
             got = list(t.iterate_fields_with_offsets(BitLengthSet(base)))
@@ -299,6 +302,43 @@ def check_offsets(case, R):
                 R.outcome("offset-match" + ("" if exact else "-cursor-only"))
             if off.min != min(exp) or off.max != max(exp) or sorted(off % 8) != sorted({x % 8 for x in exp}):
                 R.violation("offset-analytic", "analytic answers of the offset set", {**one, "base": base, "field": idx}, observed=[off.min, off.max, sorted(off % 8)], expected=[min(exp), max(exp), sorted({x % 8 for x in exp})])
+
+
+def traversal_histories(desc, R, one):
+    """Traversal histories on ONE object: traversals abandoned after k fields, two traversals (different bases) advanced alternately,
+    then complete traversals - each must yield what a traversal of a pristine object yields (the iterator must not keep state in
+    the type object that an unfinished or concurrent traversal leaves half-built)."""
+    def snap(pairs):
+        return [[str(f), sorted(o)] for f, o in pairs]
+
+    pristine = {repr(b): snap(T.build(desc).iterate_fields_with_offsets(BitLengthSet(b))) for b in BASES[:3]}
+    n = len(pristine[repr(BASES[0])])
+    if n < 2:
+        return
+    for k in range(1, n):
+        t = T.build(desc)
+        it = iter(t.iterate_fields_with_offsets(BitLengthSet(BASES[0])))
+        head = [next(it) for _ in range(k)]
+        del it  # abandoned after k fields
+        R_ok = snap(head) == pristine[repr(BASES[0])][:k]
+        for b in BASES[:3]:
+            got = snap(t.iterate_fields_with_offsets(BitLengthSet(b)))
+            R.case([desc, "abandoned-traversal", k, b], nontrivial=True, sample=False)
+            if got != pristine[repr(b)] or not R_ok:
+                R.violation("traversal-after-abandoned-traversal", "every traversal yields every field exactly once with its offsets, also after an earlier traversal of the same object was abandoned", {**one, "abandoned_after": k, "base": b}, observed=got, expected=pristine[repr(b)])
+                return
+        R.outcome("traversal-history")
+    t = T.build(desc)
+    a, b = iter(t.iterate_fields_with_offsets(BitLengthSet(BASES[0]))), iter(t.iterate_fields_with_offsets(BitLengthSet(BASES[1])))
+    ga, gb = [], []
+    for _ in range(n):
+        ga.append(next(a))
+        gb.append(next(b))
+    R.case([desc, "interleaved-traversals"], nontrivial=True, sample=False)
+    if snap(ga) != pristine[repr(BASES[0])] or snap(gb) != pristine[repr(BASES[1])]:
+        R.violation("interleaved-traversals", "two traversals of one object advanced alternately each yield every field with its offsets", one, observed=[snap(ga), snap(gb)], expected=[pristine[repr(BASES[0])], pristine[repr(BASES[1])]])
+    else:
+        R.outcome("traversal-history")
 
 
 def check_array(case, R):
